@@ -385,14 +385,12 @@ end multi
 /-! ## the single-direction router
 
 The upstream theorems (`Fs.C04.recv_lower`, `Fs.C06.singleRouter_graph`, `Fs.C06.single_dfs`) take
-`hlow` quantified over *all* pairs `(index, distance)`, not only over the neighbour slots of the
-grid.  Over a field that hypothesis is unsatisfiable as soon as some unmasked node is strictly
-lower than some node (take a negative distance of small modulus: the slope falls below `lo`).
-Here `hlow` is only required on the neighbour slots of the grid (`SingleLow`), where it follows
-from positive distances and `lo ≤ 0` (`singleLow_of_dist`).  The upstream theorems are applied to
-a scalar record `sfClamp` whose division is clamped above `lo` - it satisfies the universal
-`hlow` - and which builds the *same* graph value whenever `SingleLow` holds
-(`singleRouter_clamp`). -/
+`Fs.C04.HLow`: the slope towards an unmasked strictly lower neighbour, over the distance the grid
+reports for that neighbour slot, compares above `lowest`.  Over `fieldScalar` this is `SingleLow`
+(`hlow_iff_singleLow`), which follows from positive distances and `lo ≤ 0` (`singleLow_of_dist`).
+(An earlier form of the upstream hypothesis quantified over *all* pairs `(index, distance)`; over a
+field that is unsatisfiable as soon as some unmasked node is strictly lower than some node -
+`upstream_hlow_unsat` - which is why `HLow` only constrains the neighbour slots.) -/
 
 section congr
 variable {α : Type}
@@ -448,58 +446,31 @@ theorem singleLow_of_dist (e : Env α) (f : Nat → α) (hlo : lo ≤ 0)
   intro i hi q hq _ hlt
   exact lt_of_le_of_lt hlo (div_pos (sub_pos.mpr hlt) (hdist i hi q hq))
 
-/-- the exact scalar with the division clamped above `lo` (auxiliary, never executed) -/
-def sfClamp : Scalar α :=
-  { (SF) with div := fun a d => if lo < a / d then a / d else lo + 1 }
-
-local notation "SC" => sfClamp pow sq nu lo mx mn
-
 omit [IsStrictOrderedRing α] in
-theorem sfClamp_laws : Fs.Router.Laws (routerOps (SC)) where
-  irrefl a := by simp [routerOps, sfClamp]
-  trans a b c := by
-    simp only [routerOps, sfClamp, sf_lt, decide_eq_true_eq]
-    exact lt_trans
-  ntrans a b c := by
-    simp only [routerOps, sfClamp, sf_lt, decide_eq_false_iff_not, not_lt]
-    intro h1 h2; exact le_trans h2 h1
-
-theorem sfClamp_hlow (e : Env α) (f : Nat → α) :
-    ∀ i q, Fs.Router.cand (routerOps (SC)) e.mask f i q = true →
-      (SC).lt (SC).lowest ((SC).div ((SC).sub (f i) (f q.1)) q.2) = true := by
-  intro i q _
-  show decide (lo < if lo < (f i - f q.1) / q.2 then (f i - f q.1) / q.2 else lo + 1) = true
-  split
-  · simpa using ‹_›
-  · simp
-
-omit [IsStrictOrderedRing α] in
-theorem singleRow_clamp (e : Env α) (f : Nat → α) (hlow : SingleLow lo e f) (i : Nat) (hi : i < e.topo.n) :
-    singleRow (SC) e f i = singleRow (SF) e f i := by
-  unfold singleRow
-  by_cases hm : (e.mask i || e.isBase i) = true
-  · simp only [hm, if_true]; rfl
-  · simp only [hm, Bool.false_eq_true, if_false]
-    apply route_congr (routerOps (SF)) (routerOps (SC)) e.mask f (SF).zero i (e.topo.nbrs i) rfl rfl
-    intro q hq hc
+/-- over the exact scalar, `Fs.C04.HLow` is `SingleLow` -/
+theorem hlow_iff_singleLow (e : Env α) (f : Nat → α) :
+    Fs.C04.HLow (SF) e f ↔ SingleLow lo e f := by
+  constructor
+  · intro h i hi q hq hm hlt
+    have hc : Fs.Router.cand (routerOps (SF)) e.mask f i q = true := by
+      simp [Fs.Router.cand, routerOps, hm, hlt]
+    have := h i hi q hq hc
+    simpa using this
+  · intro h i hi q hq hc
     have hc' : e.mask q.1 = false ∧ f q.1 < f i := by
       simpa [Fs.Router.cand, routerOps] using hc
-    have := hlow i hi q hq hc'.1 hc'.2
-    show (if lo < (f i - f q.1) / q.2 then (f i - f q.1) / q.2 else lo + 1) = (f i - f q.1) / q.2
-    rw [if_pos this]
+    have := h i hi q hq hc'.1 hc'.2
+    show decide (lo < (f i - f q.1) / q.2) = true
+    simpa using this
 
-omit [IsStrictOrderedRing α] in
-/-- under `SingleLow` the clamped scalar builds the same graph value -/
-theorem singleRouter_clamp (e : Env α) (par : Bool) (f : Nat → α) (hlow : SingleLow lo e f) :
-    singleRouter (SC) e par f = singleRouter (SF) e par f := by
-  have htab : tab e.topo.n (singleRow (SC) e f) = tab e.topo.n (singleRow (SF) e f) :=
-    tab_congr _ _ _ (singleRow_clamp pow sq nu lo mx mn e f hlow)
-  unfold singleRouter
-  simp only [htab]
-  rfl
+/-- positive neighbour distances and `lo ≤ 0` give `Fs.C04.HLow` for every elevation -/
+theorem hlow_of_dist (e : Env α) (f : Nat → α) (hlo : lo ≤ 0)
+    (hdist : ∀ i, i < e.topo.n → ∀ q, q ∈ e.topo.nbrs i → 0 < q.2) : Fs.C04.HLow (SF) e f :=
+  (hlow_iff_singleLow pow sq nu lo mx mn e f).mpr (singleLow_of_dist lo e f hlo hdist)
 
-/-- the universal `hlow` of the upstream theorems cannot hold over a field once some unmasked
-node is strictly lower than some node: a negative distance of small modulus is a counterexample -/
+/-- a form of `hlow` quantified over all pairs `(index, distance)` (as the upstream theorems used
+to require) cannot hold over a field once some unmasked node is strictly lower than some node: a
+negative distance of small modulus is a counterexample -/
 theorem upstream_hlow_unsat (e : Env α) (f : Nat → α) (i r : Nat) (hm : e.mask r = false) (hlt : f r < f i) :
     ¬ ∀ i q, Fs.Router.cand (routerOps (SF)) e.mask f i q = true →
       (SF).lt (SF).lowest ((SF).div ((SF).sub (f i) (f q.1)) q.2) = true := by
@@ -564,22 +535,23 @@ theorem singleGraph_partition {n : Nat} {g : Graph α} {recv1 skip} (h : Fs.C06.
 
 variable (e : Env α) (par : Bool) (f : Nat → α)
 
+omit [IsStrictOrderedRing α] in
 /-- the single router builds a `SingleGraph`, with `hlow` only on the neighbour slots -/
 theorem singleRouter_graph' (hnb : ∀ i, i < e.topo.n → ∀ q, q ∈ e.topo.nbrs i → q.1 < e.topo.n)
     (hlow : SingleLow lo e f) :
-    Fs.C06.SingleGraph e.topo.n (singleRouter (SF) e par f) (Fs.C06.rowRecv (SC) e f)
-      (Fs.C06.routerSkip e par) := by
-  have := Fs.C06.singleRouter_graph (SC) e par f (sfClamp_laws pow sq nu lo mx mn) hnb
-    (sfClamp_hlow pow sq nu lo mx mn e f)
-  rw [singleRouter_clamp pow sq nu lo mx mn e par f hlow] at this
-  exact this
+    Fs.C06.SingleGraph e.topo.n (singleRouter (SF) e par f) (Fs.C06.rowRecv (SF) e f)
+      (Fs.C06.routerSkip e par) :=
+  Fs.C06.singleRouter_graph (SF) e par f (Fs.C05.sf_router_laws pow sq nu lo mx mn) hnb
+    ((hlow_iff_singleLow pow sq nu lo mx mn e f).mpr hlow)
 
+omit [IsStrictOrderedRing α] in
 theorem single_perm (hnb : ∀ i, i < e.topo.n → ∀ q, q ∈ e.topo.nbrs i → q.1 < e.topo.n)
     (hlow : SingleLow lo e f) : (singleRouter (SF) e par f).dfs.Perm (List.range e.topo.n) := by
   have := Fs.C06.dfs_perm (singleRouter_graph' pow sq nu lo mx mn e par f hnb hlow)
   rw [← Fs.C06.dfs_single] at this
   exact this
 
+omit [IsStrictOrderedRing α] in
 /-- **the reversed bottom-up order of the single router is a sweep order** -/
 theorem single_sweepOrder (hnb : ∀ i, i < e.topo.n → ∀ q, q ∈ e.topo.nbrs i → q.1 < e.topo.n)
     (hlow : SingleLow lo e f) :
@@ -587,6 +559,7 @@ theorem single_sweepOrder (hnb : ∀ i, i < e.topo.n → ∀ q, q ∈ e.topo.nbr
   singleGraph_sweepOrder (singleRouter_graph' pow sq nu lo mx mn e par f hnb hlow)
     (Fs.C06.dfs_single (SF) e par f)
 
+omit [IsStrictOrderedRing α] in
 /-- **the single router passes everything on to the one receiver** (weight `[1]`) -/
 theorem single_partition (hnb : ∀ i, i < e.topo.n → ∀ q, q ∈ e.topo.nbrs i → q.1 < e.topo.n)
     (hlow : SingleLow lo e f) :
@@ -594,6 +567,7 @@ theorem single_partition (hnb : ∀ i, i < e.topo.n → ∀ q, q ∈ e.topo.nbrs
   singleGraph_partition (singleRouter_graph' pow sq nu lo mx mn e par f hnb hlow)
     (Fs.C06.dfs_single (SF) e par f) (fun i hi => (Fs.C04.rows (SF) e par f i hi).2.2)
 
+omit [IsStrictOrderedRing α] in
 /-- **C03 end-to-end, single router, recurrence** -/
 theorem single_accumulate_recurrence (area src : Nat → α)
     (hnb : ∀ i, i < e.topo.n → ∀ q, q ∈ e.topo.nbrs i → q.1 < e.topo.n)
@@ -605,6 +579,7 @@ theorem single_accumulate_recurrence (area src : Nat → α)
     (single_sweepOrder pow sq nu lo mx mn e par f hnb hlow)
     (single_perm pow sq nu lo mx mn e par f hnb hlow) j hj
 
+omit [IsStrictOrderedRing α] in
 /-- **C03 end-to-end, single router, conservation** -/
 theorem single_accumulate_conservation (area src : Nat → α)
     (hnb : ∀ i, i < e.topo.n → ∀ q, q ∈ e.topo.nbrs i → q.1 < e.topo.n)
@@ -664,6 +639,9 @@ theorem e2e_dist : ∀ i, i < e2eEnv.topo.n → ∀ q, q ∈ e2eEnv.topo.nbrs i 
 theorem e2e_low : SingleLow (-1000) e2eEnv e2eElev :=
   singleLow_of_dist (-1000) e2eEnv e2eElev (by decide) e2e_dist
 
+example : Fs.C04.HLow e2eS e2eEnv e2eElev :=
+  hlow_of_dist (fun x _ => x) id id (-1000) 1000 (1/1000) e2eEnv e2eElev (by decide) e2e_dist
+
 /-- what the executed definitions compute on the instance -/
 example : (multiRouter e2eS 1 e2eEnv e2eElev).recv 3 = [1, 2] ∧
     (multiRouter e2eS 1 e2eEnv e2eElev).rweight 3 = [3/4, 1/4] ∧
@@ -707,7 +685,7 @@ example (par : Bool) (area src : Nat → ℚ) (j : Nat) (hj : j < 4) :
   single_accumulate_recurrence (fun x _ => x) id id (-1000) 1000 (1/1000) e2eEnv par e2eElev area src
     e2e_nb e2e_low j hj
 
-/-- … whereas the universal `hlow` of the upstream single-router theorems fails on it -/
+/-- … whereas `hlow` quantified over all pairs `(index, distance)` fails on it -/
 example : ¬ ∀ i q, Fs.Router.cand (routerOps e2eS) e2eEnv.mask e2eElev i q = true →
     e2eS.lt e2eS.lowest (e2eS.div (e2eS.sub (e2eElev i) (e2eElev q.1)) q.2) = true :=
   upstream_hlow_unsat (fun x _ => x) id id (-1000) 1000 (1/1000) e2eEnv e2eElev 1 0 rfl (by decide +kernel)
